@@ -228,7 +228,14 @@ func channelCheck(r *vrt.Result) string {
 	if r.Status != vrt.StOK {
 		return fmt.Sprintf("close-%s: a call never returned: %v", r.Status, r.Blocked)
 	}
+	atDone := -1
 	for _, e := range r.Events {
+		if e.Kind == "left-at-done" {
+			atDone = e.Int(0)
+		}
+		if e.Kind == "left-at-end" && atDone >= 0 && e.Int(0) != atDone {
+			return fmt.Sprintf("taken-after-done: the source held %d values when Done was observed closed and %d at the end", atDone, e.Int(0))
+		}
 		if e.Kind == "done-closed" && !e.Args[0].(bool) {
 			return "close-done-open: Done() is not closed after Close returned"
 		}
